@@ -518,8 +518,19 @@ pub fn c18(ctx: &mut Ctx) {
             let wrapped = Packet::from(u);
             macro_rules! wconv_err {
                 ($T:ty, $tp:expr) => {
-                    l.transitions += 2;
-                    match guard::catch(|| [<$T>::try_from(&wrapped).err(), wrapped.try_as::<$T>().err()]) {
+                    l.transitions += 6;
+                    // by reference, with try_as and by value (a moved value takes its own `TryFrom` impls), from the
+                    // wrapped and from the bare unknown packet
+                    match guard::catch(|| {
+                        [
+                            <$T>::try_from(&wrapped).err(),
+                            wrapped.try_as::<$T>().err(),
+                            <$T>::try_from(Packet::from(Unknown::parse(s).unwrap())).err(),
+                            Unknown::parse(s).ok().and_then(|u| <$T>::try_from(&u).err()),
+                            Unknown::parse(s).ok().and_then(|u| u.try_as::<$T>().err()),
+                            Unknown::parse(s).ok().and_then(|u| <$T>::try_from(u).err()),
+                        ]
+                    }) {
                         Err(pi) => l.subject_panic("conversion:from-wrapped-unknown", &pi, || hex_short(s)),
                         Ok(errs) => {
                             for e in errs.into_iter().flatten() {
